@@ -32,8 +32,21 @@ class ScriptExhausted(BaseException):
 
 
 class FakeResp:
+    """behaves like `requests.Response` where the code under test can observe it: `raise_for_status()`, `json()`, and - like the real
+    class - `ok`, `status_code` and a TRUTH VALUE that is False for 4xx/5xx replies (`Response.__bool__` returns `self.ok`)"""
     def __init__(self, outcome, requests_mod):
         self.o, self.rq = outcome, requests_mod
+
+    @property
+    def status_code(self):
+        return 500 if self.o == "httpError" else 400 if self.o == "reqError" else 200
+
+    @property
+    def ok(self):
+        return self.status_code < 400
+
+    def __bool__(self):
+        return self.ok
 
     def raise_for_status(self):
         if self.o == "httpError":
